@@ -1,8 +1,9 @@
 """C03 - compilation is total: any text yields a function or a compile error.
 
 Theorems (coq/props/C03.v): termination of scanning for every byte string (progress, Eof absorbing, finite token
-stream ending with the only Eof), slices only on character boundaries, interpolation depth bounded, totality of the
-parser model and "a first error carries a line >= 1"; the Pratt table, the token-kind enumeration and the keyword
+stream ending with the only Eof), slices only on character boundaries, interpolation depth bounded, the parser model
+DECIDES every source (general fuel sufficiency: never POutOfFuel with default_fuel; answers independent of the fuel)
+and "a first error carries a line >= 1"; the Pratt table, the token-kind enumeration and the keyword
 table of the model are EQUAL to the ones regenerated from compiler.rs / scanner.rs (coq/gen/Rules.v, Tokens.v).
 Tie: every generated text goes through the real `compiler::compile` (harness command `c03`, one Vm per batch, release
 build for all inputs and the debug build - overflow checks, debug assertions - for a subset) and through
@@ -313,6 +314,49 @@ def limits(rng):
     res.append(("long:statements", "x;" * 700))
     res.append(("long:number", "var n = " + "9" * 150 + "." + "9" * 150 + ";"))
     res.append(("long:calls", "f" + "()" * 600 + ";"))
+    return res
+
+
+def attribute_inputs(rng):
+    """duplicate attributes with and without arguments, on one line and across lines, for functions, classes and
+    methods (the site `attributes_declaration` reports: at the duplicate's NAME token); at most one unsupported
+    attribute per list (HashMap order)"""
+    res = []
+    targets = [("fn", "%s\nfn f() {}"), ("class", "%s\nclass C {}"), ("method", "class C {\n  %s\n  fn m(self) {}\n}"),
+               ("stmt", "%s\nvar x = 1;"), ("eof", "%s")]
+    lists = [
+        "#[static, static]", "#[foo, foo]", "#[constructor(new), constructor(new)]", "#[constructor(new), constructor(other)]",
+        "#[derive(A), derive(B)]", "#[constructor(new), derive(A), constructor(new)]", "#[foo(a, b), foo]", "#[foo, foo(a, b)]",
+        "#[foo(a), foo(a)]", "#[static,\n  static]", "#[constructor(new),\n  constructor(\n    new\n  )]",
+        "#[foo(a,\n b),\n\n foo(a,\n b)\n]", "#[\n  derive(A)\n  ,\n  derive(A)\n]", "#[static, static, static]",
+        "#[static, static", "#[static, static)", "#[foo(a), foo(", "#[foo(a), foo(a", "#[foo(a), foo(a)", "#[foo(a), foo(1)]",
+        "#[constructor(new), static, constructor(new)] ", "#[static] #[static]", "#[static]\n#[static]",
+        "#[constructor(new), constructor]", "#[constructor, constructor(new)]", "#[a, static, static]",
+    ]
+    for tn, tpl in targets:
+        for i, l in enumerate(lists):
+            res.append(("attr:%s:%d" % (tn, i), tpl % l))
+    names = ["static", "constructor", "derive", "foo", "bar"]
+    for _ in range(120):
+        n = rng.randint(2, 4)
+        seen_unsupported = False
+        items = []
+        for _ in range(n):
+            nm = rng.choice(names if not seen_unsupported else names[:3] + [x for x in items[:1] if False])
+            if nm in ("foo", "bar"):
+                if seen_unsupported:
+                    nm = rng.choice(names[:3])
+                else:
+                    seen_unsupported = nm
+            args = rng.choice(["", "", "(%s)" % ", ".join(rng.sample(["new", "A", "b"], rng.randint(1, 2))), "()"])
+            items.append(nm + args)
+        if rng.random() < 0.8:
+            items.append(rng.choice(items).split("(")[0] + rng.choice(["", "(new)", "(A, b)"]))     # a duplicate
+        if seen_unsupported:
+            items = [x for x in items if not x.startswith(("foo", "bar")) or x.split("(")[0] == seen_unsupported]
+        sep = rng.choice([", ", ",\n  ", " ,", ",\n\n"])
+        tn, tpl = rng.choice(targets)
+        res.append(("attr:%s:rand" % tn, tpl % ("#[" + sep.join(items) + "]")))
     return res
 
 
@@ -772,6 +816,11 @@ def run(ctx):
         check_texts(ctx, lim, st, "limits", debug_subset=list(range(len(lim))))
     if len(st["viol"]) < 5:
         check_texts(ctx, cs, st, "codesize", model_applies=False)
+    att = attribute_inputs(rng)
+    if len(st["viol"]) < 5:
+        check_texts(ctx, att, st, "attrs", debug_subset=list(range(0, len(att), 3)))
+    st["attr_inputs"] = len(att)
+    st["dup_attr_agreements"] = sum(1 for m, _ in st["errclasses"] if m.startswith("Duplicate attribute"))
     st["kw"] = keyword_probes(ctx, st) if len(st["viol"]) < 5 else 0
     log("[C03] ladders, limits, code-size inputs judged at %.0fs" % (time.time() - t0))
     # accepted texts must be runnable: no panic of the interpreter (a run that does not finish in time is not judged)
@@ -828,9 +877,9 @@ def finish(ctx, st, uniq, lad, lim, cs, dist, corpus_texts, nrun, run_timeouts, 
     if st["model_failed"]:
         ctx.corr_broken.append("model evaluation failed for %d texts (coq_eval)" % st["model_failed"])
     if st["fuel"]:
-        ctx.notes.append("POutOfFuel verdicts: %d (the model has no opinion on these texts), e.g. %r" % (st["fuel"], st["fuel_samples"][:2]))
+        ctx.broken.append("POutOfFuel verdicts: %d - contradicts C03_parse_fuel_enough (stale .vo or changed default_fuel?), e.g. %r" % (st["fuel"], st["fuel_samples"][:2]))
     novel = [s for s in st["accepted"] if s not in corpus_texts]
-    total = len(uniq) + len(lad) + len(lim) + len(cs) + st.get("kw", 0)
+    total = len(uniq) + len(lad) + len(lim) + len(cs) + st.get("kw", 0) + st.get("attr_inputs", 0)
     # comments of the RULES array vs the kind names (information only: a comment is not code)
     try:
         with open(os.path.join(yvlib.COQ, "gen", "manifest.json")) as fh:
@@ -851,7 +900,8 @@ def finish(ctx, st, uniq, lad, lim, cs, dist, corpus_texts, nrun, run_timeouts, 
         "distinct_accepted_noncorpus": len(novel),
         "agree_ok": st["agree_ok"], "agree_err": st["agree_err"], "err_with_recovery_messages": st["recovered"],
         "out_of_fuel": st["fuel"], "not_judged_after_many_failures": st["skipped"], "code_size_dependent": st["codesize"], "attr_order_nondeterministic": st["attr_nondet"],
-        "texts_by_family": dist, "keyword_probes": st.get("kw", 0), "ladders": len(lad), "limits": len(lim), "code_size_inputs": len(cs),
+        "texts_by_family": dist, "keyword_probes": st.get("kw", 0), "attribute_inputs": st.get("attr_inputs", 0),
+        "duplicate_attribute_error_classes": st.get("dup_attr_agreements", 0), "ladders": len(lad), "limits": len(lim), "code_size_inputs": len(cs),
         "debug_build_texts": ndebug, "run_sample": nrun, "run_timeouts_not_judged": run_timeouts,
         "operator_shapes": nshapes, "operator_shapes_discriminated": discr, "operator_programs": nprogs,
         "traces_validated_against_impl": st["agree_ok"] + st["agree_err"],
